@@ -478,7 +478,8 @@ func (p *Parser) findInjectDirectives(file *ast.File, pkg *packages.Package, kes
 		build, err := p.parseInjectCall(pkg, kessokuPackageScope, callExpr, imports, fileImports, varPool)
 		if err != nil {
 			var local *localReferenceError
-			if errors.As(err, &local) {
+			var unresolved *unresolvedSetError
+			if errors.As(err, &local) || errors.As(err, &unresolved) {
 				// not a declaration to skip: generating from it would bind the name to something else
 				fatal = err
 				return false
@@ -602,15 +603,15 @@ func (p *Parser) parseProviderArgument(pkg *packages.Package, kessokuPackageScop
 					return fmt.Errorf("invalid Set call expression")
 				}
 
+				// A Set whose members cannot be read cannot be left out: the injector would silently take the
+				// types its providers supply as parameters.
 				if varObj.Pkg().Path() != pkg.PkgPath {
-					slog.Warn("Set call expression is not in the same package. This is not supported.", "object package", varObj.Pkg().Path(), "pkg", pkg.PkgPath)
-					return nil
+					return &unresolvedSetError{pos: p.fset.Position(v.Pos()), name: v.Name, why: "it is declared in another package (" + varObj.Pkg().Path() + "), which is not supported"}
 				}
 
 				currentArg = p.getVarDecl(pkg, varObj)
 				if currentArg == nil {
-					slog.Warn("var declaration not found. Ignoring this Set call.", "obj", varObj)
-					return nil
+					return &unresolvedSetError{pos: p.fset.Position(v.Pos()), name: v.Name, why: "its declaration does not give it a kessoku.Set(...) call of its own"}
 				}
 				continue
 			case *ast.ParenExpr:
@@ -874,6 +875,17 @@ func extractExportedFields(t types.Type) ([]*StructFieldSpec, error) {
 	return fields, nil
 }
 
+// unresolvedSetError reports a Set variable whose members cannot be determined.
+type unresolvedSetError struct {
+	pos  token.Position
+	name string
+	why  string
+}
+
+func (e *unresolvedSetError) Error() string {
+	return fmt.Sprintf("%s: cannot read the members of the Set %s: %s", e.pos, e.name, e.why)
+}
+
 // localReferenceError reports an expression of a declaration that cannot be copied into the generated
 // function because it uses an identifier that only exists inside the function the declaration is written in.
 type localReferenceError struct {
@@ -923,7 +935,7 @@ func (p *Parser) getVarDecl(pkg *packages.Package, obj *types.Var) ast.Expr {
 		for _, node := range path {
 			if valSpec, ok := node.(*ast.ValueSpec); ok {
 				for i, ident := range valSpec.Names {
-					if ident.Name == obj.Name() {
+					if ident.Name == obj.Name() && len(valSpec.Values) == len(valSpec.Names) {
 						return valSpec.Values[i]
 					}
 				}
